@@ -236,3 +236,8 @@ PATCHES = [
     ('patch-unicode', 'S rename a é\n'),
     ('patch-greedy-ok', 'S remove b\nS greedy a\n'),
 ]
+# words that look like numbers to one test (str.isdigit, a regex, int()) and not to another
+NUMBERLIKE = ['--1', '---2', '-', '--', '+1', '-+1', '1.5', '0x1', '0b1', '1e3', '1_0', '-0', '00', '\u00b2', '1\u00b2',
+              '-\u2460', '\uff11', '\u0663', '1-', '1 ', '\u0b67']
+PATCHES += [('patch-insert-numberlike', 'S insert %s c u8\n' % w) for w in NUMBERLIKE]
+PATCHES += [('patch-static-numberlike', 'S static a %s\n' % w) for w in NUMBERLIKE]
